@@ -22,7 +22,8 @@ import warnings
 import numpy as np
 
 from omv.props.c15_interp_values import (LATTICE, GENERAL, FIXED, all_grids, family, method_info,
-                                         make_table, pal_seq, vander, _Raised)
+                                         make_table, pal_seq, vander, _Raised,
+                                         first_report)
 
 ID = 'C16'
 LEVEL = 'exploration'
@@ -122,14 +123,10 @@ def mk_interp(method, grids, table, opts=None, **kw):
 
 
 def guarded(fn):
+    """run fn; an exception of the implementation becomes a _Raised record (warnings and NumPy
+    floating-point flags are silenced once per case in check_case)"""
     try:
-        with warnings.catch_warnings():
-            warnings.simplefilter('ignore')
-            old = np.seterr(all='ignore')
-            try:
-                return fn()
-            finally:
-                np.seterr(**old)
+        return fn()
     except Exception as exc:
         return _Raised(exc)
 
@@ -839,7 +836,7 @@ def _collect(cfg, pts, fl, vios, dedupe):
                 v['case']['pts'] = [[float(x) for x in pts[k]] for k in f['grp']]
         if dedupe:
             _EMITTED[v['sig']] += 1
-            if _EMITTED[v['sig']] > 1:
+            if _EMITTED[v['sig']] > 1 or not first_report(v['sig']):
                 sup += 1
                 continue
         if not any(w['sig'] == v['sig'] for w in vios):
@@ -869,7 +866,11 @@ def check_group(case):
         if kind0 == 'dx':
             for tkind in ('poly', 'gen'):
                 pts, _ = dx_points(grids, tkind == 'poly', level)
-                modes = ('batch', 'single', 'gradient') if api == 'interp' else ('vec1', 'vec3')
+                if api == 'interp':
+                    modes = ('batch', 'single', 'gradient')
+                else:
+                    # (compute_totals per call dominates: one vec_size per table kind)
+                    modes = ('vec3',) if tkind == 'poly' else ('vec1',)
                 for mode in modes:
                     for opts in (optlist if api == 'interp' else [{}]):
                         cfgs.append((dict(kind0='dx', api=api, method=method, grids=grids,
@@ -883,7 +884,7 @@ def check_group(case):
                         cfgs.append((dict(kind0='dv', api=api, method=method, grids=grids, pal=pal,
                                           vec=vec, opts=opts), pts))
             elif api == 'comp':
-                for vec in (1, 3):
+                for vec in ((1, 3) if d < 3 else (3,)):
                     cfgs.append((dict(kind0='dv', api=api, method=method, grids=grids, pal=pal,
                                       vec=vec, opts={}), pts))
             else:
@@ -925,7 +926,7 @@ def check_bs(case):
             for f in fl:
                 rel = 'vec==npts' if vec == len(x) else ('vec1' if vec == 1 else 'vec>1')
                 sig = _bs_sig(f, case['api'], case['order'], rel)
-                if not any(w['sig'] == sig for w in vios):
+                if not any(w['sig'] == sig for w in vios) and first_report(sig):
                     vios.append({'sig': sig, 'case': dict(cfg, kind='bs1'),
                                  'msg': '%s bsplines num_cp=%d order=%d vec=%d x_interp=%s: %s' % (
                                      f['obs'], case['num_cp'], case['order'], vec, list(x),
@@ -935,6 +936,16 @@ def check_bs(case):
 
 
 def check_case(case):
+    with warnings.catch_warnings():
+        warnings.simplefilter('ignore')
+        old = np.seterr(all='ignore')
+        try:
+            return _check_case(case)
+        finally:
+            np.seterr(**old)
+
+
+def _check_case(case):
     kind = case['kind']
     if kind == 'grp':
         return check_group(case)
